@@ -341,6 +341,16 @@ func c20Delay(c *Check, P string) {
 			c.Report(!ReachAfter(ip, nil)[ac], P+".O2", "DELAY-STAMP-BEFORE-PUBLISH", pub, ac.Pos(), "stamp call", "stamping precedes the inner Publish")
 		}
 	}
+	{
+		var srcs []ErrSource
+		for _, ac := range applyCalls {
+			srcs = append(srcs, ErrSource{ac, 0})
+		}
+		for _, ip := range inner {
+			srcs = append(srcs, ErrSource{ip, 0})
+		}
+		ErrorsOnlyFrom(c, P+".O2", "DELAY-PUBLISH-FAILS-ONLY-ON-FAULT", pub, srcs, nil, "the delay publisher fails only when a message could not be stamped or the wrapped publisher failed")
+	}
 	for _, e := range fail {
 		re := ReachEdge(e, nil)
 		ok := !reachesAny(re, inner)
